@@ -83,7 +83,7 @@ theorem weights_shape_adapt (x lams : List K) (SkA : List (List K)) (nfft : ℕ)
     (pmtmWeights .adapt x lams SkA nfft tolc).length = nfft ∧
     ∀ f, f < nfft → ((pmtmWeights .adapt x lams SkA nfft tolc).getD f []).length = lams.length := by
   rw [pmtmWeights_adapt]
-  exact adaptLoop_shape SkA lams _ _ nfft lams.length 100 _ (wkShape_vec nfft lams.length _)
+  exact adaptLoop_shape SkA lams _ _ nfft lams.length 99 _ (wkShape_vec nfft lams.length _)
 
 end Weights
 
@@ -112,7 +112,8 @@ variable [ReOrd K]
 
 /-- **the `while` loop**: `adaptLoop` with fuel `n` returns the `k`-th iterate of `adaptStep` where `k ≤ n`
 is the first index at which the test `Σ_f|S[f]-S1[f]|/NFFT > tol` fails, or `k = n` when it never fails
-(the code's bound `i < 100`); the test held at all earlier iterates. -/
+(the bound of the code: `pmtm` runs one unconditional pass and then this loop with fuel 99, `i < 100`); the test
+held at all earlier iterates. -/
 theorem adapt_loop_iterate (Sk : List (List K)) (lams : List K) (sig2 tol : K) (nfft nwin fuel : ℕ)
     (st0 : AdaptState K) :
     ∃ k, k ≤ fuel ∧
@@ -155,7 +156,7 @@ theorem weights_adapt_formula (Sk : List (List K)) (lams : List K) (sig2 tol : K
   adaptLoop_inv Sk lams sig2 tol nfft nwin fuel st0 h0
 
 /-- **the loop stops**: the counter advanced by the number `k ≤ fuel` of passes, and either the fuel is
-exhausted (`k = fuel`, the code's `i < 100` bound) or the stopping test fails at the returned state. -/
+exhausted (`k = fuel`; in `pmtm` fuel 99 after the unconditional first pass, the code's `i < 100` bound) or the stopping test fails at the returned state. -/
 theorem weights_adapt_stop (Sk : List (List K)) (lams : List K) (sig2 tol : K) (nfft nwin fuel : ℕ)
     (st0 : AdaptState K) :
     (adaptLoop Sk lams sig2 tol nfft nwin fuel st0).i ≤ st0.i + fuel ∧
@@ -173,25 +174,26 @@ theorem weights_adapt_stop (Sk : List (List K)) (lams : List K) (sig2 tol : K) (
 
 variable [StarRing K]
 
-/-- **`pmtm(method='adapt')`**: with `σ² = adaptSig2 x = Σ_j x_j·conj x_j / N` (by definition), `tol = tolc·σ²/NFFT` and the start state
-`S = (SkA[0]+SkA[1])/2`, `S1 = 0`, `wk[f][t] = λ_t`, `i = 0`, the returned weights are `st.wk` for the state
-`st` the loop (fuel 100) stops in, and
-* `st.i ≤ 100`, and `st.i = 100` or the stopping test fails at `st`;
-* if the loop never ran (`st.i = 0`) the weights are the eigenvalues `λ_t` at every frequency;
-* otherwise `W[f][t] = λ_t (S1[f]/(λ_t S1[f] + σ²(1-λ_t)))²` with `S1` the spectrum of the last evaluation and
-  `st.S[f] = Σ_t W[f][t]·SkA[t][f] / Σ_t W[f][t]`; after exactly one pass `S1` is the start estimate. -/
+/-- **`pmtm(method='adapt')`** (the repaired loop `while (i == 0 or Σ|S-S1|/NFFT > tol) and i < 100`): with
+`σ² = adaptSig2 x = Σ_j x_j·conj x_j / N` (by definition), `tol = tolc·σ²/NFFT` and the start state
+`S = (SkA[0]+SkA[1])/2`, `S1 = 0`, `wk[f][t] = λ_t`, `i = 0`, the returned weights are `st.wk` for the state `st`
+reached by ONE UNCONDITIONAL pass followed by the conditional loop (fuel 99), and
+* AT LEAST ONE AND AT MOST 100 passes were made: `1 ≤ st.i ≤ 100`, and `st.i = 100` or the stopping test fails
+  at `st`;
+* ALWAYS (there is no "the loop never ran, the weights are the eigenvalues" case any more)
+  `W[f][t] = λ_t (S1[f]/(λ_t S1[f] + σ²(1-λ_t)))²`, Thomson's formula at `S1`, the spectrum the last pass
+  started from, and `st.S[f] = Σ_t W[f][t]·SkA[t][f] / Σ_t W[f][t]`;
+* after exactly one pass `S1` is the start estimate `(SkA[0]+SkA[1])/2`. -/
 theorem weights_adapt_pmtm (x lams : List K) (SkA : List (List K)) (nfft : ℕ) (tolc : K) :
     ∃ st : AdaptState K,
-      st = adaptLoop SkA lams (adaptSig2 x) (tolc * adaptSig2 x / (nfft : K)) nfft lams.length 100
-            (adaptInit lams SkA nfft) ∧
+      st = adaptLoop SkA lams (adaptSig2 x) (tolc * adaptSig2 x / (nfft : K)) nfft lams.length 99
+            (adaptStep SkA lams (adaptSig2 x) nfft lams.length (adaptInit lams SkA nfft)) ∧
       pmtmWeights .adapt x lams SkA nfft tolc = st.wk ∧
-      st.i ≤ 100 ∧
+      1 ≤ st.i ∧ st.i ≤ 100 ∧
       (st.i = 100 ∨
         reGt ((∑ f ∈ range nfft, absRe (nth st.S f - nth st.S1 f)) / (nfft : K))
           (tolc * adaptSig2 x / (nfft : K)) = false) ∧
-      (st.i = 0 → ∀ f, f < nfft → ∀ t, t < lams.length → nth (st.wk.getD f []) t = nth lams t) ∧
-      (st.i ≠ 0 →
-        (∀ f, f < nfft → ∀ t, t < lams.length →
+      ((∀ f, f < nfft → ∀ t, t < lams.length →
           nth (st.wk.getD f []) t
             = nth lams t
               * (nth st.S1 f / (nth lams t * nth st.S1 f + adaptSig2 x * (1 - nth lams t))) ^ 2) ∧
@@ -200,46 +202,75 @@ theorem weights_adapt_pmtm (x lams : List K) (SkA : List (List K)) (nfft : ℕ) 
             / ∑ t ∈ range lams.length, nth (st.wk.getD f []) t)) ∧
       (st.i = 1 → ∀ f, f < nfft →
         nth st.S1 f = (nth (SkA.getD 0 []) f + nth (SkA.getD 1 []) f) / 2) := by
-  refine ⟨_, rfl, pmtmWeights_adapt x lams SkA nfft tolc, ?_, ?_, ?_, ?_, ?_⟩
-  · have := (weights_adapt_stop SkA lams (adaptSig2 x) (tolc * adaptSig2 x / (nfft : K)) nfft
-      lams.length 100 (adaptInit lams SkA nfft)).1
-    simpa [adaptInit] using this
-  · have := (weights_adapt_stop SkA lams (adaptSig2 x) (tolc * adaptSig2 x / (nfft : K)) nfft
-      lams.length 100 (adaptInit lams SkA nfft)).2.2
-    simpa [adaptInit] using this
-  · intro hi f hf t ht
-    rw [adaptLoop_i_zero SkA lams _ _ nfft lams.length 100 (adaptInit lams SkA nfft) hi]
-    exact adaptInit_wk_entry lams SkA hf ht
-  · intro hi
-    have h := adaptLoop_inv SkA lams (adaptSig2 x) (tolc * adaptSig2 x / (nfft : K)) nfft
-      lams.length 100 (adaptInit lams SkA nfft) (Or.inl rfl)
-    rcases h with h | h
-    · exact absurd h hi
-    · refine ⟨fun f hf t ht => ?_, h.2⟩
-      rw [h.1 f hf t ht, adaptWeight_eq]
+  have hstop := weights_adapt_stop SkA lams (adaptSig2 x) (tolc * adaptSig2 x / (nfft : K)) nfft
+    lams.length 99 (adaptStep SkA lams (adaptSig2 x) nfft lams.length (adaptInit lams SkA nfft))
+  have hi1 : (adaptStep SkA lams (adaptSig2 x) nfft lams.length (adaptInit lams SkA nfft)).i = 1 := rfl
+  rw [hi1] at hstop
+  refine ⟨_, rfl, pmtmWeights_adapt x lams SkA nfft tolc, hstop.2.1, hstop.1, hstop.2.2, ?_, ?_⟩
+  · have h := adaptLoop_invS SkA lams (adaptSig2 x) (tolc * adaptSig2 x / (nfft : K)) nfft
+      lams.length 99 _ (adaptInvS_step SkA lams (adaptSig2 x) nfft lams.length (adaptInit lams SkA nfft))
+    refine ⟨fun f hf t ht => ?_, h.2⟩
+    rw [h.1 f hf t ht, adaptWeight_eq]
   · intro hi f hf
     obtain ⟨k, _, heq, _, _⟩ := adaptLoop_iterate SkA lams (adaptSig2 x)
-      (tolc * adaptSig2 x / (nfft : K)) nfft lams.length 100 (adaptInit lams SkA nfft)
-    rw [heq, iterate_adaptStep_i] at hi
-    have hk : k = 1 := by
-      have : (adaptInit lams SkA nfft).i = 0 := rfl
-      omega
-    rw [heq, hk, Function.iterate_one, adaptStep_S1]
+      (tolc * adaptSig2 x / (nfft : K)) nfft lams.length 99
+      (adaptStep SkA lams (adaptSig2 x) nfft lams.length (adaptInit lams SkA nfft))
+    rw [heq, iterate_adaptStep_i, hi1] at hi
+    have hk : k = 0 := by omega
+    rw [heq, hk, Function.iterate_zero, id, adaptStep_S1]
     show nth (vec nfft (fun f => (nth (SkA.getD 0 []) f + nth (SkA.getD 1 []) f) / 2)) f = _
     rw [nth_vec, if_pos hf]
 
+/-- **number of passes of `pmtm(method='adapt')`**: the returned weights are those of the `k`-th iterate of the
+pass map from the start state for some `1 ≤ k ≤ 100`; the stopping test held after each of the passes
+`1, …, k-1` (it is NOT consulted before the first pass), and either `k = 100` or it fails after pass `k`. -/
+theorem weights_adapt_pmtm_passes (x lams : List K) (SkA : List (List K)) (nfft : ℕ) (tolc : K) :
+    ∃ k, 1 ≤ k ∧ k ≤ 100 ∧
+      pmtmWeights .adapt x lams SkA nfft tolc
+        = ((adaptStep SkA lams (adaptSig2 x) nfft lams.length)^[k] (adaptInit lams SkA nfft)).wk ∧
+      (∀ j, 1 ≤ j → j < k →
+        reGt ((∑ f ∈ range nfft,
+            absRe (nth ((adaptStep SkA lams (adaptSig2 x) nfft lams.length)^[j] (adaptInit lams SkA nfft)).S f
+              - nth ((adaptStep SkA lams (adaptSig2 x) nfft lams.length)^[j] (adaptInit lams SkA nfft)).S1 f))
+            / (nfft : K)) (tolc * adaptSig2 x / (nfft : K)) = true) ∧
+      (k = 100 ∨
+        reGt ((∑ f ∈ range nfft,
+            absRe (nth ((adaptStep SkA lams (adaptSig2 x) nfft lams.length)^[k] (adaptInit lams SkA nfft)).S f
+              - nth ((adaptStep SkA lams (adaptSig2 x) nfft lams.length)^[k] (adaptInit lams SkA nfft)).S1 f))
+            / (nfft : K)) (tolc * adaptSig2 x / (nfft : K)) = false) := by
+  obtain ⟨k, hk, heq, hall, hlast⟩ := adaptLoop_iterate SkA lams (adaptSig2 x)
+    (tolc * adaptSig2 x / (nfft : K)) nfft lams.length 99
+    (adaptStep SkA lams (adaptSig2 x) nfft lams.length (adaptInit lams SkA nfft))
+  refine ⟨k + 1, Nat.succ_le_succ (Nat.zero_le _), Nat.succ_le_succ hk, ?_, ?_, ?_⟩
+  · rw [pmtmWeights_adapt, heq, Function.iterate_succ_apply]
+  · intro j hj1 hjk
+    obtain ⟨j', rfl⟩ : ∃ j', j = j' + 1 := ⟨j - 1, by omega⟩
+    have := hall j' (by omega)
+    rw [← Function.iterate_succ_apply] at this
+    exact this
+  · rcases hlast with h | h
+    · exact Or.inl (by rw [h])
+    · right
+      rw [← Function.iterate_succ_apply] at h
+      exact h
+
 end Loop
 
-/-- non-vacuity (`K = ℚ`, the real-part tests being `≤`, `>` on `ℚ`): data `[1, 1]` (`σ² = 1`), eigenvalues
-`[1/2, 1/4]`, `SkA = [[1, 2], [3, 4]]`, `NFFT = 2`.  With `tolc = 4` (`tol = 2`) the loop makes exactly one
-pass: start estimate `[2, 3]`, e.g. `W[0][0] = (1/2)·(2/(1 + 1/2))² = 8/9`.  With `tolc = 100` the test
-fails at once and the weights are the eigenvalues. -/
+/-- non-vacuity and the repaired behaviour (`K = ℚ`, the real-part tests being `≤`, `>` on `ℚ`): data `[1, 1]`
+(`σ² = 1`), eigenvalues `[1/2, 1/4]`, `SkA = [[1, 2], [3, 4]]`, `NFFT = 2`, start estimate `[2, 3]`.
+With `tolc = 100` (`tol = 50`) the start estimate `Σ|S - 0|/2 = 5/2` is below the tolerance: the unrepaired loop
+made NO pass and returned the eigenvalues `[[1/2, 1/4], [1/2, 1/4]]`; the repaired loop makes its first pass, e.g.
+`W[0][0] = (1/2)·(2/(1 + 1/2))² = 8/9`, and stops after it (new estimate `[79/43, 50/17]`, change `≈ 0.11`).
+With `tolc = 4` (`tol = 2`) the same single pass.  With `tolc = 1/5` (`tol = 1/10 < 0.11`) a second pass is made:
+weights = Thomson's formula at `[79/43, 50/17]`, e.g. `W[0][0] = (1/2)·((79/43)/((79/43)/2 + 1/2))² = 6241/7442`. -/
 example :
     letI : ReOrd ℚ := ⟨fun a => a ≤ 0, fun a b => a > b⟩
+    pmtmWeights .adapt ([1, 1] : List ℚ) [1 / 2, 1 / 4] [[1, 2], [3, 4]] 2 100
+        = [[8 / 9, 16 / 25], [9 / 8, 1]] ∧
     pmtmWeights .adapt ([1, 1] : List ℚ) [1 / 2, 1 / 4] [[1, 2], [3, 4]] 2 4
         = [[8 / 9, 16 / 25], [9 / 8, 1]] ∧
-    pmtmWeights .adapt ([1, 1] : List ℚ) [1 / 2, 1 / 4] [[1, 2], [3, 4]] 2 100
-        = [[1 / 2, 1 / 4], [1 / 2, 1 / 4]] := by
+    pmtmWeights .adapt ([1, 1] : List ℚ) [1 / 2, 1 / 4] [[1, 2], [3, 4]] 2 (1 / 5)
+        = [[6241 / 7442, 6241 / 10816], [5000 / 4489, 10000 / 10201]] := by
   decide +kernel
 
 /-! ### 4. bounds on the adaptive weights (`K = ℝ`) -/
@@ -281,8 +312,9 @@ theorem weights_adapt_bounds_pmtm [ReOrd ℝ] (x lams : List ℝ) (SkA : List (L
       0 ≤ nth ((pmtmWeights .adapt x lams SkA nfft tolc).getD f []) t ∧
       nth ((pmtmWeights .adapt x lams SkA nfft tolc).getD f []) t ≤ 1 / nth lams t := by
   rw [pmtmWeights_adapt]
-  exact (adaptLoop_pos SkA lams _ nfft lams.length hl hsig hSk 100 _
-    (adaptPos_init lams SkA nfft (fun t ht => ⟨(hl t ht).1, (hl t ht).2.le⟩) h2 hSk)).2
+  exact (adaptLoop_pos SkA lams _ nfft lams.length hl hsig hSk 99 _
+    (adaptPos_step SkA lams nfft lams.length hl hsig hSk _
+      (adaptPos_init lams SkA nfft (fun t ht => ⟨(hl t ht).1, (hl t ht).2.le⟩) h2 hSk))).2
 
 /-! ### 5. the class mean -/
 
